@@ -620,6 +620,31 @@ def _fppm(seed, tier):
 DOMAINS["C13.loader_keyword_defaults"] = _pm_denotes
 
 
+@domain("C13.priority_pairs_expand_and_compress")
+def _prio_pairs(seed, tier):
+    for case in _prio(seed, tier):
+        pm = case["pm"]
+        for p in pm:
+            for i in range(len(pm[p])):
+                yield {"data": pm, "p": p, "i": i, "x": "1"}
+
+
+@domain("C13.reverse_pairs_expand_and_compress")
+def _rev_pairs(seed, tier):
+    for case in _rev(seed, tier):
+        for u in case["rpm"]:
+            yield {"rpm": case["rpm"], "u": u, "x": "1"}
+
+
+@domain("C13.listed_pairs_expand_and_compress")
+def _pairs(seed, tier):
+    rng = random.Random(seed)
+    for pm in _prefix_maps(rng, 60 if tier == "quick" else 600, bijective=True):
+        for p in pm:
+            for x in ("1", "", "a:b"):
+                yield {"pm": pm, "p": p, "x": x}
+
+
 @domain("C13.priority_map_denotes")
 def _prio(seed, tier):
     rng = random.Random(seed)
